@@ -13,6 +13,6 @@ s=s.replace(old,new,1)
 open(p,'w').write(s)
 PY
 cd /verif
-PYVC_REPO=$M ./check $PROP 2>&1 | grep -v conda | grep -E "^\[|VIOLATION|UNDECIDED|FAULT|KNOWN" | cut -c1-260
+PYVC_OUT=$M/out PYVC_REPO=$M ./check $PROP 2>&1 | grep -v conda | grep -E "^\[|VIOLATION|UNDECIDED|FAULT|KNOWN" | cut -c1-260
 echo "exit=${PIPESTATUS[0]}"
 rm -rf $M
